@@ -6,13 +6,6 @@ From Verif Require Import Base.Prelude Model.Stack Model.StackX Spec.StackObs Sp
   Proofs.StackLemmas Proofs.StackInv.
 
 (* ---------- who an observation is about ---------- *)
-Definition from_peer (p : N) (o : obs) : bool :=
-  match o with
-  | OEvent _ _ ski _ _ _ => N.eqb ski p
-  | OResult p' _ _ _ _ => N.eqb p' p
-  | _ => false
-  end.
-
 Definition all_from (p : N) (l : list obs) : Prop := Forall (fun o => from_peer p o = true) l.
 
 Lemma all_from_app p a b : all_from p a -> all_from p b -> all_from p (a ++ b).
@@ -225,6 +218,26 @@ Proof.
   - apply (call_from _ b q ctr Eb).
 Qed.
 
+(* the round of a data change overlapped by a disconnect: notifications are about nobody, the
+   teardown's observations are about p *)
+Lemma setdata_not_from s e f fn v p : Forall (fun o => from_peer p o = false) (snd (step s (SetData e f fn v))).
+Proof.
+  cbn [step]. destruct (find_lfeat s e (Some f)) as [lf|]; [|repeat constructor].
+  destruct (fn_registered (lf_type lf) fn); [|constructor]. cbn [snd]. unfold notify_subscribers.
+  apply Forall_forall. intros o Ho. apply in_map_iff in Ho. destruct Ho as [x [<- _]]. reflexivity.
+Qed.
+
+Lemma xsplit_split s a b P : xsplit a b = Some P ->
+  let o1 := snd (step s a) in let o2 := snd (step (fst (step s a)) b) in
+  filter (fun x => negb (P x)) (o1 ++ o2) = o1 /\ filter P (o1 ++ o2) = o2.
+Proof.
+  unfold xsplit. destruct (overlap a b) as [[[p q] ctr]|] eqn:Eo.
+  - intros H. inversion H; subst. exact (overlap_split s a b p q ctr Eo).
+  - destruct (round_overlap a b) as [p|] eqn:Er; [|discriminate]. intros H. inversion H; subst.
+    destruct a; try discriminate. destruct b; try discriminate. simpl in Er. inversion Er; subst.
+    apply split_overlap; [apply setdata_not_from | apply disconnect_from].
+Qed.
+
 (* ---------- lifting a step lemma ---------- *)
 Section LiftInv.
   Context {mst : Type}.
@@ -237,8 +250,8 @@ Section LiftInv.
     let '(m1, v) := xmon mon m o (snd (xstep s o)) in v = [] /\ Inv (fst (xstep s o)) m1.
   Proof.
     intros I. destruct o as [o|a b]; cbn [xstep xmon]; [exact (step_inv s m o I)|].
-    destruct (overlap a b) as [[[p q] ctr]|] eqn:Eo; [|split; [reflexivity | exact I]].
-    pose proof (overlap_split s a b p q ctr Eo) as Hsp. cbv zeta in Hsp.
+    destruct (xsplit a b) as [P|] eqn:Eo; [|split; [reflexivity | exact I]].
+    pose proof (xsplit_split s a b P Eo) as Hsp. cbv zeta in Hsp.
     pose proof (step_inv s m a I) as H1.
     destruct (step s a) as [s1 o1]. cbn [fst snd] in *.
     pose proof (fun m1 (I1 : Inv s1 m1) => step_inv s1 m1 b I1) as H2.
